@@ -111,6 +111,7 @@ type FuncContract struct {
 	NoContent  []string // element types whose slice contents are not tracked on append ("[]string")
 	Trusted    string
 	AllowPanic bool
+	DataflowOnly string // non-empty: only contract-derived obligations are generated (no nil/bounds/overflow/frame/panic checks)
 	Notes      []string
 	CallSites  map[string]*CallSiteSpec
 	Asserts    []Clause
@@ -142,7 +143,7 @@ type PkgContracts struct {
 var clauseKeywords = map[string]bool{
 	"pred": true, "spec": true, "pool": true, "ghostfield": true, "ufun": true, "axiom": true, "lemma": true, "func": true, "extern": true,
 	"props": true, "mode": true, "requires": true, "ensures": true, "modifies": true, "loop": true,
-	"assume": true, "trusted": true, "ghost": true, "allow-panic": true, "note": true, "callsite": true, "assert": true, "allocates": true, "unreachable": true, "inherit": true, "region": true,
+	"assume": true, "trusted": true, "ghost": true, "allow-panic": true, "dataflow-only": true, "note": true, "callsite": true, "assert": true, "allocates": true, "unreachable": true, "inherit": true, "region": true,
 }
 
 func parseParams(s string) ([]Param, error) {
@@ -710,6 +711,14 @@ func parseContractFile(path string, pc *PkgContracts) error {
 				cur.Trusted = c.text
 				if cur.Trusted == "" {
 					cur.Trusted = "trusted"
+				}
+			case "dataflow-only":
+				// dataflow-only REASON : the unit is too large/unstructured for a functional contract; only the clauses
+				// written in the contract (callsite requires, asserts, ensures) are checked, on executions that do not
+				// panic; calls without contract are over-approximated (havoc). Listed as an assumption.
+				cur.DataflowOnly = c.text
+				if cur.DataflowOnly == "" {
+					cur.DataflowOnly = "only the stated clauses are checked"
 				}
 			case "allow-panic":
 				cur.AllowPanic = true
